@@ -355,6 +355,7 @@ func (m *Model) Run(hist []string) *proto.Result {
 			res.Err = "UseWallet(B): " + err.Error()
 			return res
 		}
+		w.KeepSelection = true
 		for _, ev := range []string{"k.rm", "k.run"} {
 			if ok, err := w.Apply(ev); err != nil || !ok {
 				res.Err = fmt.Sprintf("state selected-removed: %s enabled=%v err=%v", ev, ok, err)
